@@ -65,6 +65,32 @@ CONSTRUCTS = [
     ('tuple_index', 'int', '@.1', [], ('(int, int)', '(7, 8)')),
     ('enum_value', 'int', 'Color.Green', ['Color'], None),
     ('match_binding', 'int', 'match @ { Some(s) => s.value, None(n) => 0 }', ['Opt'], ('Opt', 'Opt.Some { value: 5 }')),
+    # an ENUM-typed variable as operand of every int operator (enum values are ints for the type checker and natively)
+    ('enum_var', 'int', '@', ['Color'], ('Color', 'Color.Blue')),
+    ('enum_add', 'int', '(+ @ 1)', ['Color'], ('Color', 'Color.Blue')),
+    ('enum_sub', 'int', '(- @ 1)', ['Color'], ('Color', 'Color.Blue')),
+    ('enum_mul', 'int', '(* @ 3)', ['Color'], ('Color', 'Color.Blue')),
+    ('enum_div', 'int', '(/ @ 2)', ['Color'], ('Color', 'Color.Blue')),
+    ('enum_mod', 'int', '(% @ 2)', ['Color'], ('Color', 'Color.Blue')),
+    ('enum_rmod', 'int', '(% 7 @)', ['Color'], ('Color', 'Color.Blue')),
+    ('enum_neg', 'int', '(- @)', ['Color'], ('Color', 'Color.Blue')),
+    ('enum_lt', 'bool', '(< @ 2)', ['Color'], ('Color', 'Color.Blue')),
+    ('enum_le', 'bool', '(<= @ 2)', ['Color'], ('Color', 'Color.Blue')),
+    ('enum_gt', 'bool', '(> @ 1)', ['Color'], ('Color', 'Color.Blue')),
+    ('enum_ge', 'bool', '(>= @ 2)', ['Color'], ('Color', 'Color.Blue')),
+    ('enum_eq_int', 'bool', '(== @ 2)', ['Color'], ('Color', 'Color.Blue')),
+    ('enum_ne_int', 'bool', '(!= @ 1)', ['Color'], ('Color', 'Color.Blue')),
+    ('enum_eq_enum', 'bool', '(== @ Color.Blue)', ['Color'], ('Color', 'Color.Blue')),
+    ('enum_add_enum', 'int', '(+ @ @)', ['Color'], ('Color', 'Color.Green')),
+    ('enum_index', 'int', '(at [4, 5, 6] @)', ['Color'], ('Color', 'Color.Blue')),
+    ('enum_cond', 'int', '(cond ((== @ Color.Blue) 10) (else 20))', ['Color'], ('Color', 'Color.Blue')),
+    ('enum_call_arg', 'int', '(dbl @)', ['Color', 'dbl'], ('Color', 'Color.Blue')),
+    ('enum_min', 'int', '(min @ 1)', ['Color'], ('Color', 'Color.Blue')),
+    ('enum_abs', 'int', '(abs @)', ['Color'], ('Color', 'Color.Blue')),
+    ('enum_lit_mod', 'int', '(% Color.Blue 2)', ['Color'], None),
+    ('enum_lit_mul', 'int', '(* Color.Blue 2)', ['Color'], None),
+    ('enum_lit_lt', 'bool', '(< Color.Green 2)', ['Color'], None),
+    ('enum_to_string', 'string', '(int_to_string @)', ['Color'], ('Color', 'Color.Blue')),
 ]
 CONTEXTS = ['global', 'stmt', 'call-arg', 'operand', 'if-cond', 'while-cond', 'for-bound', 'return', 'loop-body', 'block-let', 'shadow']
 
@@ -204,20 +230,25 @@ def run_matrix(ck, b, probe, wd, thorough):
             todo_single += mine
             accepted_by_ctx[ctx] = [k for k in accepted_by_ctx[ctx] if k not in mine]
         # batches: one program per context; type-check the batch too (a batch the checker refuses is split)
-        batches = {ctx: program([cells[k] for k in ks]) for ctx, ks in accepted_by_ctx.items() if ks}
-        bverd = dict(zip(batches, T.probe_tc(probe, list(batches.values()))))
-        def oneb(ctx):
-            if bverd[ctx][0] != 'accept':
-                return ctx, None, ({'batch': 'refused'}, False)
-            obs, cl = run_prog('mxb_' + ctx.replace('-', '_'), batches[ctx])
-            return ctx, obs, cl
+        CH = 14          # cells per program (the VM's per-function local limit is hit by bigger for-bound batches)
+        batches = {}
+        for ctx, ks in accepted_by_ctx.items():
+            for j in range(0, len(ks), CH):
+                batches[(ctx, j)] = ks[j:j + CH]
+        bsrc = {bk: program([cells[k] for k in ks]) for bk, ks in batches.items()}
+        bverd = dict(zip(bsrc, T.probe_tc(probe, list(bsrc.values()))))
+        def oneb(bk):
+            if bverd[bk][0] != 'accept':
+                return bk, None, ({'batch': 'refused'}, False)
+            obs, cl = run_prog('mxb_%s_%d' % (bk[0].replace('-', '_'), bk[1]), bsrc[bk])
+            return bk, obs, cl
         nsplit = 0
-        for ctx, obs, (fails, same_out) in langlib.pmap(oneb, sorted(batches)):
+        for bk, obs, (fails, same_out) in langlib.pmap(oneb, sorted(batches)):
             if fails:
                 nsplit += 1
-                todo_single += accepted_by_ctx[ctx]
+                todo_single += batches[bk]
             else:
-                for k in accepted_by_ctx[ctx]:
+                for k in batches[bk]:
                     table[k] = 'ok' if same_out else 'ok(batch output differs)'
                 if not same_out:
                     outdiff += 1
